@@ -268,7 +268,7 @@ import re as _re
 
 def known_class(arm, case, key):
     data, _ = case
-    if key.startswith("non-yaml-error:c:") and "UnicodeDecodeError" in key:
+    if key.startswith(("non-yaml-error:c:", "non-yaml-error:c-path:")) and "UnicodeDecodeError" in key:
         if isinstance(data, str):
             text = data
         else:
